@@ -11,7 +11,7 @@ CONSTANTS
   HfpTTL <- MC_HfpTTL
   Methods = {"GET", "POST"}
   TTLs = {1}
-  Outcomes = {"cacheable", "uncacheable", "error", "timeout", "panic"}
+  Outcomes = {"cacheable", "uncacheable", "error", "timeout", "panic", "gone"}
   LoadResults = {}
   SaveResults = {TRUE}
   Jumps = {1, 40}
